@@ -204,7 +204,7 @@ func a2bReuse(c *Ctx, p *Program, rows []*reviewRow, pooled map[string]bool) {
 			}
 		}
 	}
-	c.Floor("A2b-reuse", n, 40)
+	c.Floor("A2b-reuse", n, 25)
 	a2bExtend(c, p, rows)
 }
 
